@@ -150,9 +150,9 @@ def good_session(rng, tier):
     ty, lits, nbm = STORAGES[shape]
     pty, plits = PARAMS.get(shape, ('unit', ['Unit']))
     cells = [[f'parameter ({pty}) ; storage ({ty}) ; {COND_CODE if shape == "bm_cond" else CODE}']]
-    rounds = rng.choice([1, 2, 2, 3])
+    rounds = rng.choice([1, 2, 2, 3]) if rng.random() > (0.15 if tier == 'thorough' else 0.03) else rng.choice([5, 8])
     for rd in range(rounds):
-        tag = 'abcdef'[rd]
+        tag = 'abcdefghij'[rd % 10]
         body = []
         fresh = nbm > 0 and rng.random() < 0.45
         if rng.random() < 0.2 and rd > 0:
